@@ -1,0 +1,11 @@
+//go:build verif
+
+package bitmap1024
+
+import "github.com/pinealctx/neptune/bitmap1024/internal"
+
+// VerifSetSparseMagic re-exports the sparse/dense traversal threshold setter of the
+// internal package (build tag "verif").
+func VerifSetSparseMagic(i int32) {
+	internal.SetSparseMagic(i)
+}
